@@ -23,9 +23,28 @@ REQUIRED_THEOREMS = ['CfVerif.C04.' + t for t in (
     'set_roundtrip', 'set_roundtrip_int', 'fanout_each_once', 'registrations_nodup',
     'one_outstanding_fifo', 'reply_attribution_partial', 'reply_attribution_counterexample',
     'reply_attribution_duplicates_counterexample')]
-TRUSTED = ['harness/corr/c04.py extractor + correspondence + spec twin']
-ASSUMPTIONS = []
-RULE = ''
+TRUSTED = ['harness/corr/c04.py extractor + correspondence + spec twin; harness/sim/crazyflie_device.py (session stepping, link) and harness/vsched',
+           'environment model: the firmware parameter server of DESIGN Appendix D (Spec/C04 Dev = harness/sim CrazyflieDevice port 2, cross-checked on every transmitted request)',
+           "CPython: struct pack/unpack as modelled in Base/Struct; int(str) on ASCII input; float(str) (passed to the model as an oracle, only reached for "
+           "string values of float-typed parameters); str()/float() round trip of numbers; the binary64->binary32 rounding of struct.pack('<f') is modelled "
+           '(f64ToF32) and compared bit for bit against CPython, not proved against IEEE 754',
+           'queue.Queue is FIFO and put/get are atomic; Lock.acquire/release as modelled (one holder); list(self.cb) is an atomic copy',
+           'atomicity: an API call, updater get, updater acquire+transmit, and the dispatch of one received packet are single steps of the model']
+ASSUMPTIONS = ['the 60 s wall-clock wait of set_value/get_value before the first full fetch is outside the model (Out.blocked)',
+               'FP16 parameters (pytype \'\') are outside the property; the model follows the code (struct.error) and the harness keeps them out of connected tables',
+               'update / misc callbacks do not call back into Param while they run (no re-entrancy)',
+               'link loss, close() and reconnection (queue drain, forced lock release) belong to C02/C10 and are not modelled',
+               'replies duplicated or forged by the link are outside the closed-system theorems (the device answers each request once); the host model '
+               'itself accepts arbitrary packets and is compared with the code on malformed / unsolicited ones',
+               'the port callback left behind by _ExtendedTypeFetcher after connection (C03) is unregistered by the harness; TOC download itself is C03',
+               'reply_attribution is PARTIAL: side condition DistinctAlong (finding D5b)']
+RULE = ('cases = request lines of scenarios, each on a fresh simulated Crazyflie (2-10 parameters over all 10 numeric types, V2 and legacy protocol, RO / '
+        'persistent / stored mixes) to which the REAL Crazyflie connects through the real TOC download; then random API calls (set_value with boundary, '
+        '+-1 outside, huge, float incl. +-0/inf/nan/subnormal/tie patterns, strings, bool, None; get_value; request_param_update; the four misc calls '
+        'with and without callback, unknown / malformed names; add/remove update callbacks), single steps of the real _ParamUpdater.run and '
+        '_IncomingPacketHandler.run bodies in random order (reply delays), firmware-side changes with notifications, malformed packets, bursts of 1-5 '
+        'outstanding misc requests with duplicates; plus direct binary64->binary32 conversion cases.  distinct = distinct (op, observation) pairs; '
+        'non-trivial = the step produced an observation (transmission, callback, exception, release)')
 
 PARAM = 'cflib/crazyflie/param.py'
 CF = 'cflib/crazyflie/__init__.py'
@@ -866,6 +885,64 @@ def run_ops(sc, nops, weights=None):
             ctx.count('step:inject')
 
 
+def misc_burst(sc, k):
+    """k misc requests issued back to back (all outstanding together), duplicates of (command, parameter) included"""
+    rng, r, ctx = sc.rng, sc.real, sc.ctx
+    pers = [nm for nm, p in zip(sc.names, sc.dev.param_toc) if p.persistent] or sc.names
+    pool = [rng.choice(pers) for _ in range(rng.randint(1, 3))]
+    for _ in range(k):
+        name = rng.choice(pool)
+        kind = rng.choice(['getdef', 'getstate', 'store', 'clear'])
+        sc.rid += 1
+        rid = sc.rid
+        if kind == 'getdef':
+            toks, line = r.get_default(name, rid), 'getdef %s %d' % (r.cn(name), rid)
+        elif kind == 'getstate':
+            toks, line = r.get_state(name, rid), 'getstate %s %d' % (r.cn(name), rid)
+        else:
+            with_cb = rng.random() < 0.7
+            toks = (r.store if kind == 'store' else r.clear)(name, rid if with_cb else None)
+            line = '%s %s %s' % (kind, r.cn(name), rid if with_cb else '-')
+        sc.emit(line, ['ok'] + toks)
+        ctx.count('burst:' + kind)
+    ctx.count('burst:k=%d' % k)
+
+
+def float_cases(ctx, n):
+    """the binary64 -> binary32 step of struct.pack('<f') and its inverse, against CPython's struct"""
+    rng = ctx.rng
+    lines, want = [], []
+    special = [0, 1 << 63, 0x7FF0000000000000, 0xFFF0000000000000, 0x7FF8000000000000, 0x7FF0000000000001, 0xFFF8000000000123,
+               0x7FF4000000000000, 1, 0x000FFFFFFFFFFFFF, 0x0010000000000000, 0x47EFFFFFE0000000, 0x47EFFFFFF0000000, 0x47EFFFFFEFFFFFFF,
+               0x47F0000000000000, 0x36A0000000000000, 0x369FFFFFFFFFFFFF, 0x36A0000000000001, 0x3810000000000000, 0x380FFFFFFFFFFFFF,
+               0x380FFFFFF0000000, 0x3FF0000010000000, 0x3FF0000030000000, 0x3FF0000010000001, 0x7FEFFFFFFFFFFFFF, 0x3690000000000000,
+               0x36B0000000000000, 0x36A8000000000000]
+    for k in range(n):
+        if k < len(special):
+            b = special[k]
+        elif k % 3 == 0:
+            b = rng.getrandbits(64)
+        elif k % 3 == 1:      # around the binary32 exponent range
+            b = (rng.getrandbits(1) << 63) | (rng.randint(1023 - 160, 1023 + 130) << 52) | rng.getrandbits(52)
+        else:                 # rounding ties / near ties of the 29 dropped bits
+            b = (rng.getrandbits(1) << 63) | (rng.randint(1023 - 130, 1023 + 127) << 52) | (rng.getrandbits(23) << 29) | rng.choice([0x10000000, 0x0FFFFFFF, 0x10000001, 0, 0x1FFFFFFF])
+        x = struct.unpack('<d', struct.pack('<Q', b))[0]
+        try:
+            w = 'ok %d' % struct.unpack('<I', struct.pack('<f', x))[0]
+        except OverflowError:
+            w = 'err overflow'
+        if x != x:
+            w = 'nan'       # NaN payload propagation is platform behaviour: compare NaN-ness only
+        lines.append('f64to32 %d' % b)
+        want.append(w)
+    for k in range(n // 2):
+        b32 = rng.getrandbits(32) if k > 8 else [0, 1 << 31, 1, 0x7FFFFF, 0x800000, 0x7F7FFFFF, 0x7F800000, 0xFF800000, 0x3F800000][k]
+        y = struct.unpack('<f', struct.pack('<I', b32))[0]
+        lines.append('f32to64 %d' % b32)
+        want.append('nan' if y != y else 'ok %d' % f64bits(y))
+    return lines, want
+
+
 def drain(sc, limit=400):
     for _ in range(limit):
         a = sc.upd() if sc.real.s._worker_ready(sc.real.upd) else False
@@ -881,18 +958,33 @@ def correspond(ctx):
     ctx.count('variant:routing=%d,snapshot=%d' % (routing, 1 if snap else 0))
     thorough = ctx.tier == 'thorough'
     scenarios = []
-    nsc = 400 if thorough else 70
+    nsc = 1500 if thorough else 120
     for k in range(nsc):
         v2 = ctx.rng.random() < 0.85
         sc = Scenario(ctx, routing, snap, v2=v2, all_types=(k % 5 == 0), n=10 if k % 5 == 0 else None)
         if ctx.rng.random() < 0.7:
             drain(sc)                       # fetch all values: fully connected
         run_ops(sc, 150 if thorough else 80)
+        if sc.real.proto4():
+            drain(sc)
+            misc_burst(sc, 1 + k % 5)
         drain(sc)
         sc.emit('state', None)
         scenarios.append(sc)
+    flines, fwant = float_cases(ctx, 20000 if thorough else 2500)
     lines = [l for sc in scenarios for l in sc.lines]
-    replies = ctx.lean(DRIVER, lines)
+    replies = ctx.lean(DRIVER, lines + flines)
+    for line, want, got in zip(flines, fwant, replies[len(lines):]):
+        if want == 'nan':
+            ok = got.startswith('ok ') and is_nan_bits(int(got[3:]) if line.startswith('f64to32') else int(got[3:]) | (1 << 62))
+            ok = ok or (got.startswith('ok ') and line.startswith('f32to64') and (int(got[3:]) & 0x7FF0000000000000) == 0x7FF0000000000000
+                        and (int(got[3:]) & 0xFFFFFFFFFFFFF) != 0)
+        else:
+            ok = got == want
+        ctx.case({'op': line}, ('float', line.split(' ')[0], want.split(' ')[0]))
+        ctx.count('float:' + want.split(' ')[0])
+        if not ok:
+            ctx.disagree('float-conversion', line, got, want)
     i = 0
     for sc in scenarios:
         bad = False
@@ -996,6 +1088,11 @@ def _misc_case(ctx, S, routing, reqs, ctypes, label):
 
 def search(ctx):
     """the property itself (Python twin of Spec/C04 + the statement) evaluated on the real code's observable behaviour"""
+    _search_sync(ctx)
+    search_threads(ctx)
+
+
+def _search_sync(ctx):
     from harness.sim import crazyflie_device as S
     logging.getLogger('cflib').setLevel(logging.CRITICAL)
     rng = ctx.rng
@@ -1143,3 +1240,198 @@ def search(ctx):
         if violations:
             ctx.witness('one-outstanding', 'a request was transmitted before the previous one was answered',
                         {'issued': [(c, d.hex()) for c, d in issued]}, sent_answered=violations[:5])
+
+
+# ---- real threads under the virtual scheduler (failing-input search only) -------------------------------------------
+def _vsched_case(ctx, S, seed, nworkers, nreq, trace_points=()):
+    """The REAL Crazyflie with its real incoming-packet thread and real _ParamUpdater thread, plus `nworkers` user threads
+    issuing set / read / misc requests concurrently, under a seeded schedule of harness.vsched.  Returns the list of
+    property failures (strings) found in this run, evaluated directly on what was observed."""
+    import copy
+    from harness import vsched
+    rng = __import__('random').Random(seed)
+    n = rng.randint(2, 5)
+    cts = [rng.choice(CTYPES) for _ in range(n)]
+    protos = [S.ParamVar('g', 'p%d' % k, ct, value=rand_value(rng, ct), persistent=True, default=rand_value(rng, ct),
+                         stored=None) for k, ct in enumerate(cts)]
+    # plan: per worker a list of requests; misc keys (kind, param) are globally distinct (side condition of the partial theorem)
+    used = set()
+    plans = []
+    for w in range(nworkers):
+        plan = []
+        for _ in range(nreq):
+            i = rng.randrange(n)
+            x = rng.random()
+            if x < 0.45:
+                plan.append(('set', i, rand_value(rng, cts[i])))
+            elif x < 0.6:
+                plan.append(('read', i, None))
+            else:
+                kind = rng.choice(['getdef', 'getstate', 'store', 'clear'])
+                if (kind, i) in used:
+                    plan.append(('read', i, None))
+                else:
+                    used.add((kind, i))
+                    plan.append((kind, i, None))
+        plans.append(plan)
+    fails = []
+    with vsched.Session(step_limit=60000) as sess:
+        from cflib.crazyflie import Crazyflie
+        from cflib.crazyflie.param import ParamTocElement
+        from cflib.crtp.crtpstack import CRTPPacket
+        import logging as _lg
+        _lg.getLogger('cflib').setLevel(_lg.CRITICAL)
+
+        class VLink:
+            needs_resending = False
+
+            def __init__(self, dev):
+                self.dev = dev
+                self.q = vsched.queue.Queue()
+
+            def send_packet(self, pk):
+                port, chan, data = (pk.header >> 4) & 0x0F, pk.header & 0x03, bytes(pk.data)
+                if port == 2:
+                    vsched.emit('tx', chan, data)
+                for (p, c, d) in self.dev.handle(port, chan, data):
+                    self.q.put(CRTPPacket(((p & 0x0F) << 4) | (c & 0x03), bytearray(d)))
+
+            def receive_packet(self, wait=0):
+                import queue as _rq
+                try:
+                    pk = self.q.get(True, wait) if wait else self.q.get(False)
+                except _rq.Empty:
+                    return None
+                if pk.port == 2:
+                    vsched.emit('rx', pk.channel, bytes(pk.data))
+                return pk
+
+            def close(self):
+                pass
+
+        def main():
+            dev = S.CrazyflieDevice(protocol_version=5, param_toc=copy.deepcopy(protos))
+            link = VLink(dev)
+            cf = Crazyflie(link=link, rw_cache=None)
+            cf.platform.get_protocol_version = lambda: 5
+            for i, p in enumerate(dev.param_toc):
+                el = ParamTocElement(i, S.item_bytes(p))
+                el.mark_persistent()
+                cf.param.toc.add_element(el)
+            cf.param._useV2 = True
+            q = cf.param.param_updater.request_queue
+            oput = q._put
+
+            def logged_put(item):
+                vsched.emit('enq', item.channel, bytes(item.data))
+                oput(item)
+            q._put = logged_put
+            cf.param.add_update_callback(group=None, name=None, cb=lambda nm, v: vsched.emit('upd', nm, v))
+            cf.param.request_update_of_all_params()
+            if not cf.param._initialized.wait(timeout=30):
+                return 'not-initialized'
+
+            def worker(k):
+                for j, (kind, i, v) in enumerate(plans[k]):
+                    name = 'g.p%d' % i
+                    tag = (k, j)
+                    if kind == 'set':
+                        cf.param.set_value(name, v)
+                    elif kind == 'read':
+                        cf.param.request_param_update(name)
+                    else:
+                        fn = {'getdef': cf.param.get_default_value, 'getstate': cf.param.persistent_get_state,
+                              'store': cf.param.persistent_store, 'clear': cf.param.persistent_clear}[kind]
+
+                        def cb(nm, val, _t=tag, _ct=cts[i]):
+                            if val is not None and hasattr(val, 'is_stored'):
+                                val = (val.is_stored, _bits(_ct, val.default_value), None if val.stored_value is None else _bits(_ct, val.stored_value))
+                            elif val is not None and not isinstance(val, bool):
+                                val = _bits(_ct, val)
+                            vsched.emit('misc', _t, nm, val)
+                        fn(name, cb)
+                    if rng_sched.random() < 0.3:
+                        vsched.time.sleep(0.01)
+            ts = [vsched.threading.Thread(target=worker, args=(k,)) for k in range(nworkers)]
+            for t in ts:
+                t.start()
+            for t in ts:
+                t.join()
+            vsched.time.sleep(5.0)                 # virtual: lets the updater drain the queue
+            cached = {('g.p%d' % i): cf.param.get_value('g.p%d' % i) for i in range(n)}
+            return {'cached': cached, 'device': [p.value for p in dev.param_toc], 'left': q.qsize()}
+        rng_sched = __import__('random').Random(seed + 1)
+        res = sess.run(main, policy=vsched.Random(seed), trace_points=list(trace_points))
+    if res.outcome != 'ok' or res.exc is not None or res.deaths:
+        return ['vsched run did not complete: outcome=%s exc=%r deaths=%r' % (res.outcome, res.exc, res.deaths)], res
+    if res.value == 'not-initialized':
+        return ['initial fetch of all values did not complete'], res
+    ev = [e[1:] for e in res.events()]
+    # skip the initial fetch
+    enq = [(e[1], e[2]) for e in ev if e[0] == 'enq']
+    tx = [(e[1], e[2]) for e in ev if e[0] == 'tx']
+    if tx != enq or res.value['left'] != 0:
+        fails.append('wire order differs from issue (queue) order: issued %r sent %r' % (enq[:12], tx[:12]))
+    # one outstanding: between two transmissions a solicited reply answering the first is delivered
+    outstanding = None
+    for e in ev:
+        if e[0] == 'tx':
+            if outstanding is not None:
+                fails.append('request %r transmitted while %r is unanswered' % ((e[1], e[2].hex()), (outstanding[0], outstanding[1].hex())))
+            outstanding = (e[1], e[2])
+        elif e[0] == 'rx' and not (e[1] == 3 and e[2][:1] == b'\x01'):
+            if outstanding is None:
+                fails.append('solicited reply %r with nothing outstanding' % (e[2].hex(),))
+            else:
+                k = 3 if outstanding[0] == 3 else 2
+                if e[1] != outstanding[0] or e[2][:k] != outstanding[1][:k]:
+                    fails.append('reply %r does not answer outstanding %r' % (e[2].hex(), outstanding[1].hex()))
+            outstanding = None
+    # attribution: replay the requests sequentially in wire order against a fresh device
+    oracle = S.CrazyflieDevice(protocol_version=5, param_toc=copy.deepcopy(protos))
+    init = len([1 for _ in range(n)])
+    want_misc = {}
+    by_key = {}
+    for k, plan in enumerate(plans):
+        for j, (kind, i, v) in enumerate(plan):
+            if kind not in ('set', 'read'):
+                by_key[({'getdef': 6, 'getstate': 4, 'store': 3, 'clear': 5}[kind], i)] = ((k, j), kind, i)
+    for (chan, data) in tx[init:]:
+        if chan == 3:
+            key = (data[0], data[1] | data[2] << 8)
+            tag, kind, i = by_key[key]
+            want_misc[tag] = ('g.p%d' % i, _expected_misc(oracle, S, kind, i)[1])
+        else:
+            oracle.handle(2, chan, data)
+    got_misc = {}
+    for e in ev:
+        if e[0] == 'misc':
+            got_misc.setdefault(e[1], []).append((e[2], e[3]))
+    if got_misc != {t: [w] for t, w in want_misc.items()}:
+        fails.append('misc callbacks %r, expected exactly once each %r' % (got_misc, want_misc))
+    # final cache = device values
+    for i in range(n):
+        cv = res.value['cached']['g.p%d' % i]
+        dv = res.value['device'][i]
+        if _bits(cts[i], float(cv) if cts[i] in ('float', 'double') else int(cv)) != _bits(cts[i], dv) or _bits(cts[i], oracle.param_toc[i].value) != _bits(cts[i], dv):
+            fails.append('cached value of g.p%d is %r, device has %r' % (i, cv, dv))
+    return fails, res
+
+
+def search_threads(ctx):
+    from harness.sim import crazyflie_device as S
+    nruns = 60 if ctx.tier == 'thorough' else 12
+    for k in range(nruns):
+        seed = ctx.rng.randrange(1 << 30)
+        nworkers = ctx.rng.choice([2, 3, 4])
+        try:
+            fails, res = _vsched_case(ctx, S, seed, nworkers, ctx.rng.randint(2, 5))
+        except Exception as e:       # infrastructure problem of the scheduler: not a verdict about the property
+            ctx.note('vsched run skipped (%s: %s)' % (type(e).__name__, str(e)[:200]))
+            ctx.count('vsched:skipped')
+            continue
+        ctx.count('vsched:runs')
+        ctx.count('vsched:threads=%d' % nworkers)
+        if fails:
+            ctx.witness('threads-fifo-attribution', 'with real threads under the virtual scheduler: ' + fails[0][:300],
+                        {'vsched_seed': seed, 'workers': nworkers}, more=fails[1:4], choices=list(res.choices)[:200])
